@@ -169,6 +169,25 @@ func (*TumblingWindow).getWindowKey
   ensures windows-that-end-at-different-instants-have-different-keys-the-key-spells-the-end-to-the-nanosecond: result == fmt.Sprintf("%d", endTime.UnixNano())
 
 // every watermark the window receives is acted on: the intervals are checked against it, none is skipped
+// processing time: every expiry of the window's timer fires the window once, and nothing else does; the loop ends
+// only when the window is stopped
+func (*TumblingWindow).startProcessingTime$1
+  props C01 C02
+  modifies *
+  count expired := select@3#0
+  count fired := Trigger
+  before Trigger the-window-fires-because-its-timer-expired: $selected == 0
+  loop 1 invariant every-expiry-of-the-timer-so-far-fired-the-window-once: $fired == $expired
+
+// the same for the sliding window's step timer: once the first window has been fired, every expiry of the step timer
+// fires the window once and nothing else does
+func (*SlidingWindow).startProcessingTime$1
+  props C08 C02
+  modifies *
+  count expired := select@4#0
+  count fired := Trigger
+  loop 1 step every-expiry-of-the-step-timer-fires-the-window-once-and-nothing-else-does: $fired - prev($fired) == $expired - prev($expired)
+
 func (*TumblingWindow).startEventTime$1
   props C01 C02
   modifies *
@@ -905,6 +924,16 @@ func (*SessionWindow).sendResult
   before After under-the-blocking-policy-a-batch-waits-the-configured-time-for-room-five-seconds-when-none-is-configured: $arg0 == ite(sw.config.PerformanceConfig.OverflowConfig.BlockTimeout <= 0, 5000000000, sw.config.PerformanceConfig.OverflowConfig.BlockTimeout)
   ensures a-batch-is-booked-once-as-sent-or-as-dropped-unless-the-window-is-stopping: (sw.sentCount - old(sw.sentCount)) + (sw.droppedCount - old(sw.droppedCount)) + (ghost(dones) - old(ghost(dones))) == 1
   ensures it-is-booked-as-sent-exactly-when-it-was-put-on-the-output-channel: sw.sentCount - old(sw.sentCount) == ghost(sends) - old(ghost(sends)) && sw.sentCount >= old(sw.sentCount) && sw.droppedCount >= old(sw.droppedCount)
+
+// processing time: sessions are looked over at every tick of a timer that runs twice per timeout, and only then
+func (*SessionWindow).startProcessingTime$1
+  props C10 C02 C04
+  modifies *
+  count ticks := select@2#0
+  count scans := checkExpiredSessions
+  before NewTicker expiry-is-looked-for-twice-per-timeout: $arg0 == sw.timeout / 2
+  before checkExpiredSessions sessions-are-looked-over-because-the-timer-ticked: $selected == 0
+  loop 1 invariant every-tick-so-far-was-followed-by-one-look-over-the-sessions: $scans == $ticks
 
 // every watermark the session window receives is acted on: the open sessions are scanned against it, none is skipped
 func (*SessionWindow).startEventTime$1
